@@ -8,6 +8,7 @@ CONSTANTS
   ExtraV = {"rq"}
   Only1On = FALSE
   WithRemote = TRUE
+  Froms = {"addr"}
   Kinds = {"pipe"}
   ModOn = FALSE
   Lazy = TRUE
